@@ -400,6 +400,12 @@ func runC05(rc *RunCtx) {
 	c.materialize(dirRef)
 	c.materialize(dirTest)
 	ref := rc.RunCmd(c.spec(dirRef, refCfg))
+	if prev, err := os.ReadFile(filepath.Join(dirRef, "out.fastx")); err == nil && t.Choose(2) == 1 {
+		// the output file of the drawn configuration already exists, left by an earlier and
+		// longer run: what the command writes must replace it entirely
+		staleFile(t, filepath.Join(dirTest, "out.fastx"), len(prev))
+		rc.Probe("output_file_already_exists")
+	}
 	test := rc.RunCmd(c.spec(dirTest, p))
 	rc.Out.Nontrivial = test.Contended > 0
 	rc.Out.Key = fmt.Sprintf("%s/%v/%s/%s", name, c.Args, p, test.Sig)
@@ -439,6 +445,17 @@ func runC05(rc *RunCtx) {
 	if d := diffOutputs(outTest, outRef); d != "" {
 		rc.Violate("C05/"+name+"/output-depends-on-parallelism"+suspect, "outputs differ between (%s) and the reference (%s), options %v:\n%s", p, refCfg, c.Args, d)
 	}
+}
+
+// staleFile leaves at path the output of an "earlier run": well-formed records, more bytes
+// than the run to come will write.
+func staleFile(t *simrt.Tape, path string, atLeast int) {
+	n := atLeast + 200 + t.Choose(5000)
+	var b bytes.Buffer
+	for i := 0; b.Len() < n; i++ {
+		fmt.Fprintf(&b, ">stale%04d {\"count\":1}\nacgtacgtacgtacgtacgt\n", i)
+	}
+	os.WriteFile(path, b.Bytes(), 0644)
 }
 
 func shaFiles(m map[string][]byte) string {
